@@ -108,20 +108,21 @@ def racing_fetch(obs, a, prev, att):
     id = a['acc']['id']
     ops = [o for o in obs['store_ops'] if o['id'] is not None and
            hq_norm(o['id']) == id]
-    gets = [o for o in ops if o['op'] == 'get' and o['t1'] is not None and
-            o['t1'] <= att['t0']]
+    gets = [o for o in ops if o['op'] == 'get' and o['s1'] is not None and
+            o['s1'] < att['start_seq']]
     if not gets:
         # dispatched by enqueue() itself after an earlier, dequeue-dispatched
         # attempt had already finished
         return att['attempts_arg'] == 0 and att is not a['attempts'][0]
-    g = max(gets, key=lambda o: (o['t1'], o['t0']))
-    done = prev['t1']
+    g = max(gets, key=lambda o: o['s1'])
+    pend = prev['end_seq'] if prev['end_seq'] is not None else float('inf')
+    done = pend
     for o in ops:
         if o['op'] in ('remove', 'increment_attempts', 'set_timestamp',
-                       'set_recipients_delivered') and o['t0'] >= prev['t1'] \
-                and o['t0'] <= att['t0']:
-            done = max(done, o['t1'] if o['t1'] is not None else float('inf'))
-    return g['t0'] < done or g['t0'] < prev['t1']
+                       'set_recipients_delivered') and o['s0'] > pend \
+                and o['s0'] < att['start_seq']:
+            done = max(done, o['s1'] if o['s1'] is not None else float('inf'))
+    return g['s0'] < done
 
 
 def hq_norm(id):
